@@ -42,6 +42,7 @@ man = {
         "kind_free_text": "property-based testing (pgregory.net/rapid v1.3.0), exhaustive enumeration of small finite sub-domains, native go fuzzing in the thorough tier; explicit oracles (reference models, round trips, metamorphic relations, history invariants); sharded test binaries rebuilt from /repo's working tree on every run",
     }],
     "checks": checks,
+    "not_applicable": [],
     "notes": "All checks: ./check <ID> <quick|thorough> [--replay <file>]; exit 0 held / 1 VIOLATION / 2 inconclusive (infrastructure). Known findings and fixed defects: /verif/known_findings.txt.",
 }
 if na:
